@@ -6,6 +6,7 @@ from ..report import ok, bad
 from ..rules_layout import r_layout
 from ..rules_narrow import r_narrow
 from ..rules_sib import P, returns
+from ..rules_stream import is_store
 from .seqdefs import seq_obligations
 from . import imgcommon as ic
 
@@ -121,6 +122,33 @@ def factories(F, S):
         out.append(ok("R-INIT", inst, fn.loc(fn.body), fn.qn, "both headers of a factory-made bitmap come from the Create aggregates (every field set)", "imageHeader = ImageHeader::Create(…); bmpHeader = BmpHeader::Create(…)"))
     else:
         out.append(bad("R-INIT", inst, fn.loc(fn.body), fn.qn, "both headers of a factory-made bitmap come from the Create aggregates (every field set)", "assignments not found"))
+    # the overloads that take a palette / pixels build on the three-argument factory: they hand it their own bit depth, width
+    # and height (the file size in the header is computed there from exactly these) and afterwards replace nothing but the
+    # palette entries and the pixel buffer - never a header
+    for np_ in (4, 5):
+        ov = F.fn(B + "::CreateIndexed", nparams=np_)
+        inst = "%s::CreateIndexed/%d#delegates-dimensions" % (B, np_)
+        req = "the overload creates the bitmap from its own (bitCount, width, height) and stores to neither header afterwards"
+        dl = [nd for nd in ov.nodes if nd["k"] in CALLS and (nd.get("fq") or nd.get("fname") or "").endswith("CreateIndexed") and len(nd.get("args", [])) >= 3]
+        if len(dl) != 1:
+            raise AnalysisBroken("CreateIndexed/%d: delegation to a smaller overload not found" % np_)
+        args = [ov.xterm(a) for a in dl[0]["args"][:3]]
+        same = args == [P(ov, 0), P(ov, 1), P(ov, 2)]
+        hdr_stores = []
+        for nd in ov.nodes:
+            tgt = None
+            if is_store(nd):
+                tgt = ov.term(ov.kids(nd["id"])[0])
+            elif nd["k"] == "CXXOperatorCallExpr" and nd.get("op") == "=" and nd.get("args"):
+                tgt = ov.term(nd["args"][0])
+            if tgt is not None and ("imageHeader" in repr(tgt) or "bmpHeader" in repr(tgt)):
+                hdr_stores.append(nd)
+        if same and not hdr_stores:
+            out.append(ok("R-INIT", inst, ov.loc(dl[0]["id"]), ov.qn, req, "CreateIndexed(bitCount, width, height, ...) ; headers untouched"))
+        else:
+            out.append(bad("R-INIT", inst, ov.loc((hdr_stores or dl)[0]["id"]), ov.qn, req,
+                           ("delegates with (%s)" % ", ".join(fmt_term(a) for a in args) if not same else "") +
+                           ("; a header is stored to after the delegate computed the file size" if hdr_stores else "")))
     # aggregates list every field
     for q, rec in ((IH + "::Create", "OP2Utility::ImageHeader"), ("OP2Utility::BmpHeader::Create", "OP2Utility::BmpHeader")):
         c = F.fns(q)
